@@ -59,7 +59,44 @@ func c19Manifest(phases []string) *manifests.PackageManifest {
 
 const c19ChildEnv = "VERIF_C19_CHILD"
 
+// c19Body writes an abstract body as template text: a mark per emit, an include per include.
+func c19Body(b []int) string {
+	var sb strings.Builder
+	for _, i := range b {
+		if i < 0 {
+			sb.WriteString("#")
+		} else {
+			fmt.Fprintf(&sb, `{{ include "t%d" . }}`, i)
+		}
+	}
+	return sb.String()
+}
+
+// c19TmplModelled: fn "tmpl" — the templates of Prog as real `define`s in a helper file, Entry as a
+// template file; executed by the real RenderTemplates; the outcome is the number of marks in the
+// output or the error class.
+func c19TmplModelled(s verifc19.Scn) string {
+	var defs strings.Builder
+	for i, b := range s.Prog {
+		fmt.Fprintf(&defs, `{{- define "t%d" -}}%s{{- end -}}`+"\n", i, c19Body(b))
+	}
+	pkg := &packagetypes.Package{Manifest: c19Manifest([]string{"a"}), Files: packagetypes.Files{
+		"_defs.gotmpl":   []byte(defs.String()),
+		"out.txt.gotmpl": []byte(c19Body(s.Entry)),
+	}}
+	return verifc19.GuardT(60*time.Second, func() string {
+		err := RenderTemplates(context.Background(), pkg, packagetypes.PackageRenderContext{})
+		if err != nil {
+			return "err"
+		}
+		return fmt.Sprintf("ok %d", strings.Count(string(pkg.Files["out.txt"]), "#"))
+	})
+}
+
 func c19TmplRun(s verifc19.Scn) string {
+	if s.Fn == "tmpl" {
+		return c19TmplModelled(s)
+	}
 	if s.Blob == nil {
 		return "BAD-SCENARIO"
 	}
@@ -128,7 +165,7 @@ func c19RunRender(s verifc19.Scn) string {
 	const d = 20 * time.Second
 	ctx := context.Background()
 	switch s.Fn {
-	case "tmplX":
+	case "tmplX", "tmpl":
 		return c19Child(s)
 	case "render", "renderX":
 		var file []byte
@@ -351,6 +388,82 @@ func TestVerifC19Render(t *testing.T) {
 			"_h.gotmpl":     `{{- define "tree" -}}{{ if gt (int .) 0 }}{{ include "tree" (sub (int .) 1) }}{{ include "tree" (sub (int .) 1) }}{{ end }}.{{- end -}}`,
 			"t.yaml.gotmpl": obj(fmt.Sprintf(`{{ include "tree" %d | len | quote }}`, d)),
 		})
+	}
+	// ---- tmpl (modelled): template sets as abstract programs; `Pko.Model.Include` predicts the outcome.
+	// Programs whose execution would take more than ~200k steps are skipped (cost estimated by a
+	// simulator with the same counter discipline — it only filters, it predicts nothing).
+	c19Cost := func(prog [][]int, entry []int) int {
+		counts := map[int]int{}
+		steps := 0
+		var exec func(b []int) bool
+		exec = func(b []int) bool {
+			for _, i := range b {
+				steps++
+				if steps > 200000 {
+					return false
+				}
+				if i < 0 {
+					continue
+				}
+				if i >= len(prog) || counts[i] > 1000 {
+					return false
+				}
+				counts[i]++
+				ok := exec(prog[i])
+				counts[i]--
+				if !ok {
+					return false
+				}
+			}
+			return true
+		}
+		exec(entry)
+		return steps
+	}
+	fixedProgs := []struct {
+		p [][]int
+		e []int
+	}{
+		{[][]int{{-1, 0}}, []int{0}},                   // self include
+		{[][]int{{1}, {0}}, []int{0}},                  // mutual
+		{[][]int{{-1}, {0, -1, 0}}, []int{1, 1}},       // leaves only
+		{[][]int{{-1}, {0, 1}}, []int{1}},              // completes an include of ANOTHER name, then recurses
+		{[][]int{{7}}, []int{0}},                       // unknown template
+		{[][]int{{-1}}, []int{0, 0, 0, 3}},             // unknown template after output
+		{[][]int{{}, {0, 0, 0}}, []int{1, -1}},         // empty bodies
+		{[][]int{{1, -1}, {2, -1}, {-1}}, []int{0, 0}}, // chain
+		{[][]int{{1}, {2}, {0}}, []int{0}},             // cycle of three
+		{[][]int{{-1, 1}, {-1, 2}, {-1, 1}}, []int{0}}, // cycle entered from outside
+	}
+	for _, f := range fixedProgs {
+		emit(verifc19.Scn{Fn: "tmpl", Prog: f.p, Entry: f.e}, "tmpl-modelled")
+	}
+	nt := r.Pick(60, 400)
+	for i := 0; i < nt; i++ {
+		k := 1 + g.R.Intn(4)
+		prog := make([][]int, k)
+		body := func() []int {
+			b := []int{}
+			for j := g.R.Intn(4); j > 0; j-- {
+				switch {
+				case g.P(0.45):
+					b = append(b, -1)
+				case g.P(0.08):
+					b = append(b, k+g.R.Intn(2)) // unknown template
+				default:
+					b = append(b, g.R.Intn(k))
+				}
+			}
+			return b
+		}
+		for j := range prog {
+			prog[j] = body()
+		}
+		entry := body()
+		if c19Cost(prog, entry) > 200000 {
+			continue
+		}
+		emit(verifc19.Scn{Fn: "tmpl", Prog: prog, Entry: entry}, "tmpl-modelled")
 	}
 	for _, f := range tmplFamilies {
 		b, _ := json.Marshal(f)
